@@ -392,8 +392,8 @@ def _perm_free_edges(state):
 
 TASK.edge_space = edge_space
 TASK.edges = {
-    "shift": {"apply": _shift_edges, "funcs": None, "keys": None},
-    "permute": {"apply": _perm_edges, "funcs": None, "keys": None},
+    "shift": {"apply": _shift_edges, "funcs": None, "keys": None, "cfgs": "all"},
+    "permute": {"apply": _perm_edges, "funcs": None, "keys": None, "cfgs": "all"},
     # the first occurrence is the documented prototype, so standard_FPR is exempt from free occurrence permutations
     "permute-occurrences": {"apply": _perm_free_edges,
                             "funcs": ["pattern.establishment_FPR", "pattern.occurrence_FPR",
